@@ -100,7 +100,8 @@ def runner(rep, tier, seed, replay):
         r = run_tlc("MCPipeline", cfg, timeout=3000)
         if r.violation:
             raise ToolError("Pipeline model violates C02 at the design level (%s):\n%s" % (cfg, r.violation[:2500]))
-        check_action_coverage(r, ["Fork", "PCloseW", "PCloseR", "CDupIn", "CDupOut", "CExec", "Wait"])
+        if "_f" not in cfg:      # in the fault configurations pipe() fails before anything is forked
+            check_action_coverage(r, ["Fork", "PCloseW", "PCloseR", "CDupIn", "CDupOut", "CExec", "Wait"])
         rep.add_tlc(r)
     # negative control: with stdout read to EOF before stderr (core.rs as pinned) a captured command that fills the stderr
     # pipe deadlocks the shell - TLC must find the non-terminating behaviour
